@@ -351,7 +351,7 @@ Section C.
   (* ---- block invariant: native source statements, possibly one non-trivial statement at the end ---- *)
   Definition binv (c : blk) : Prop :=
     (Forall srcok (bstmts c) /\ combineRequired c = false) \/
-    (exists pre s, bstmts c = pre ++ [s] /\ Forall srcok pre /\ combineRequired c = true).
+    (exists pre s, bstmts c = pre ++ [s] /\ Forall srcok pre /\ combineRequired c = true /\ checked c = false).
 
   Definition Kspec' (k : blk -> res blk) (rest : list stmt) : Prop :=
     forall c B, binv c -> k c = OK B ->
@@ -363,8 +363,8 @@ Section C.
   Lemma combineRequired_mark c : combineRequired (markCombined c) = combineRequired c.
   Proof. reflexivity. Qed.
 
-  Lemma binv_mark c : binv c -> binv (markCombined c).
-  Proof. intros H; exact H. Qed.
+  Lemma checked_push c s k c' : push c s k = OK c' -> checked c' = false.
+  Proof. unfold push. destruct (negb (checked c) || frozen c); [discriminate|]. intros H; inversion H; reflexivity. Qed.
 
   Lemma lastKind_push c s k c' : push c s k = OK c' -> lastKind c' = Some k.
   Proof.
@@ -385,6 +385,7 @@ Section C.
   Lemma binv_push_nontriv c s k c' : Forall srcok (bstmts c) -> k <> KTrivial -> push c s k = OK c' -> binv c'.
   Proof.
     intros Hc Hk H. right. exists (bstmts c), s. split; [apply (push_stmts _ _ _ H)|]. split; auto.
+    split; [|apply (checked_push _ _ _ H)].
     unfold combineRequired. rewrite (lastKind_push _ _ _ H). destruct k; auto; congruence.
   Qed.
 
@@ -398,7 +399,9 @@ Section C.
   Lemma binv_pushReturn c e k c' : Forall srcok (bstmts c) -> pushReturn c e k = OK c' -> binv c'.
   Proof.
     intros Hc H. right. exists (bstmts c), (SRet e). split; [apply (pushReturn_stmts _ _ _ H)|]. split; auto.
-    destruct (lastKind_pushReturn _ _ _ H) as [Hl Hk]. unfold combineRequired. rewrite Hl. destruct k; auto; discriminate.
+    destruct (lastKind_pushReturn _ _ _ H) as [Hl Hk]. split; [unfold combineRequired; rewrite Hl; destruct k; auto; discriminate|].
+    unfold pushReturn in H. rewrite Hk in H. cbn [negb] in H. destruct (push c (SRet e) k) as [b|] eqn:E; cbn [bind] in H; [|discriminate].
+    inversion H; subst. cbn [checked]. apply (checked_push _ _ _ E).
   Qed.
 
   (* what a block that is native-only does, followed by rest, when its last statement is appended *)
@@ -433,7 +436,7 @@ Section C.
     intros Hk c B Hinv HB n w r H. unfold comb in HB.
     rewrite combineRequired_mark in HB.
     destruct (combineRequired c) eqn:Ecr; cbn [negb] in HB.
-    2:{ destruct Hinv as [[Hsrc _]|[pre [s [_ [_ Hc]]]]]; [|congruence].
+    2:{ destruct Hinv as [[Hsrc _]|[pre [s [_ [_ [Hc _]]]]]]; [|congruence].
         eapply (Hk (markCombined c)); [exact Hsrc|exact Ecr|exact HB|exact H]. }
     destruct Hinv as [[_ Hc]|[pre [s [Es [Hpre _]]]]]; [congruence|].
     destruct (pop (markCombined c)) as [[[s' kd] c'']|] eqn:Ep; cbn [bind] in HB; [|discriminate].
@@ -1085,8 +1088,8 @@ Section C.
           | EElse b => forallb (supp k) b
           | EElif x => is_if x && supp k x
           end
-      | SFor i c p b => init_ok i && init_ok p && forallb (supp k) b
-      | SSwitch i t cs => init_ok i && forallb (fun lb => clause_ok (supp k) k (snd lb)) cs
+      | SFor i c p b => init_ok2 i && init_ok p && forallb (supp k) b
+      | SSwitch i t cs => init_ok2 i && forallb (fun lb => clause_ok (supp k) k (snd lb)) cs
       | _ => false
       end.
   Proof. reflexivity. Qed.
@@ -1100,6 +1103,10 @@ Section C.
 
   Lemma init_ok_srcok i : init_ok i = true -> forall x, i = Some x -> srcok x.
   Proof. intros H x ->. destruct x; try discriminate. constructor. Qed.
+  Lemma init_ok2_srcok i : init_ok2 i = true -> forall x, i = Some x -> srcok x.
+  Proof. intros H x ->. destruct x; try discriminate; constructor. Qed.
+  Lemma init_ok2_supp i x k : init_ok2 i = true -> i = Some x -> supp (S k) x = true.
+  Proof. intros H ->. destruct x; try discriminate; reflexivity. Qed.
 
   Lemma supp_srcok k : forall s, supp k s = true -> srcok s.
   Proof.
@@ -1113,10 +1120,10 @@ Section C.
     - apply andb_prop in H. destruct H as [H He]. destruct el; constructor.
       + apply HL; exact He.
       + apply andb_prop in He. destruct He as [_ He]. apply IH; exact He.
-    - apply andb_prop in H. destruct H as [Hi Hc]. apply init_ok_srcok; exact Hi.
+    - apply andb_prop in H. destruct H as [Hi Hc]. apply init_ok2_srcok; exact Hi.
     - apply andb_prop in H. destruct H as [Hi Hc]. apply Forall_forall. intros lb Hlb.
       rewrite forallb_forall in Hc. specialize (Hc lb Hlb). apply clause_ok_inv in Hc. apply HL. tauto.
-    - apply andb_prop in H. destruct H as [H Hb]. apply andb_prop in H. destruct H as [Hi Hp]. apply init_ok_srcok; exact Hi.
+    - apply andb_prop in H. destruct H as [H Hb]. apply andb_prop in H. destruct H as [Hi Hp]. apply init_ok2_srcok; exact Hi.
     - apply andb_prop in H. destruct H as [H Hb]. apply andb_prop in H. destruct H as [Hi Hp]. apply init_ok_srcok; exact Hp.
     - apply andb_prop in H. destruct H as [H Hb]. apply HL; exact Hb.
     - destruct e; try discriminate. constructor.
@@ -1396,31 +1403,34 @@ Section C.
       apply andb_prop in Hs. destruct Hs as [Hs Hb]. apply andb_prop in Hs. destruct Hs as [Hi Hp].
       assert (Hsrc : srcok (SFor init c post b)) by (eapply supp_srcok; exact Hs0).
       assert (Hbsrc : Forall srcok b) by (eapply supps_srcok; exact Hb).
+      assert (Hsrc0 : srcok (SFor None c post b)).
+      { inversion Hsrc; subst. constructor; auto. intros x Hx; discriminate. }
+      assert (Hs1 : supp (S k) (SFor None c post b) = true) by (rewrite supp_S, Hp, Hb; reflexivity).
       rewrite rw_for_S in HB. destruct (bind_ok _ _ HB) as [body [Hbody HB']]. clear HB. cbv zeta in HB'.
-      rewrite (init_ok_hasYo _ Hi), (init_ok_hasYo _ Hp) in HB'. cbn [negb andb] in HB'.
+      rewrite (init_ok_hasYo _ Hp) in HB'. cbn [negb] in HB'. rewrite !andb_true_r in HB'.
       assert (Sb : sim b (bstmts body)) by (eapply Hsub; eauto).
-      destruct (mustNoYield body) eqn:Etriv.
+      (* what follows the (hoisted) init statement *)
+      set (after := fun c2 : blk =>
+             if mustNoYield body then comb c2 (fun c3 => c4 <- push c3 (SFor None c post b) KTrivial ;; kk c4)
+             else comb c2 (fun c3 => c4 <- pushReturn c3 (XFor (option_map CExp c) post (XDelay (TLit (bstmts body)))) KFor ;; kk c4)) in HB'.
+      assert (Hafter : Kspec' after (SFor None c post b :: rest)).
+      { unfold after. destruct (mustNoYield body).
+        - apply comb_spec. intros c3 B3 Hc3 _ HB3 n w r H. destruct (bind_ok _ _ HB3) as [c4 [Hc4 HkB]].
+          destruct (@Nseq_shift _ _ _ _ _ _ Hc3 Hsrc0 H) as [m Hm].
+          eapply (Hk c4 B3); [eapply binv_push_triv; [exact Hc3|exact Hsrc0|exact Hc4]|exact HkB|]. rewrite (push_stmts _ _ _ Hc4). exact Hm.
+        - apply comb_spec. intros c3 B3 Hc3 _ HB3 n w r H. destruct (bind_ok _ _ HB3) as [c4 [Hc4 HkB]].
+          destruct (@Nseq_shift_sim _ _ _ _ _ _ _ Hc3 Hsrc0 (@sim_for c post b (bstmts body) Sb Hbsrc Hp) H) as [m Hm].
+          eapply Hk; [eapply binv_pushReturn; eauto|exact HkB|]. rewrite (pushReturn_stmts _ _ _ Hc4). exact Hm. }
+      destruct (negb (hasYo init) && mustNoYield body) eqn:Etriv.
       + (* nothing yields: the loop stays native *)
         destruct (bind_ok _ _ HB') as [c1 [Hc1 HkB]]. intros n w r H.
         destruct (@Nseq_shift _ _ _ _ _ _ Hcur Hsrc H) as [m Hm].
-        eapply Hk; [eapply binv_push_triv; eauto|exact HkB|]. rewrite (push_stmts _ _ _ Hc1). exact Hm.
-      + (* the body becomes the callback of seq.For / While / Loop *)
-        cbn [andb] in HB'.
-        set (k' := fun c3 => c4 <- pushReturn c3 (XFor (option_map CExp c) post (XDelay (TLit (bstmts body)))) KFor ;; kk c4) in HB'.
-        assert (Hk' : Kspec0 k' (SFor None c post b :: rest)).
-        { intros c3 B3 Hc3 _ HB3 n w r H. unfold k' in HB3. destruct (bind_ok _ _ HB3) as [c4 [Hc4 HkB]].
-          assert (Hsrc0 : srcok (SFor None c post b)).
-          { inversion Hsrc; subst. constructor; auto. intros x Hx; discriminate. }
-          destruct (@Nseq_shift_sim _ _ _ _ _ _ _ Hc3 Hsrc0 (@sim_for c post b (bstmts body) Sb Hbsrc Hp) H) as [m Hm].
-          eapply Hk; [eapply binv_pushReturn; eauto|exact HkB|]. rewrite (pushReturn_stmts _ _ _ Hc4). exact Hm. }
-        pose proof (comb_spec Hk') as Hafter.
-        destruct init as [i|].
-        * destruct i; try discriminate.
-          intros n w r H. destruct (@Nseq_sim_rest _ _ _ _ _ _ (sim_for_init (SAtom a) c post b rest) H) as [n1 H1].
-          destruct f as [|f']; [discriminate|]. rewrite rw_stmt_S in HB'.
-          destruct (bind_ok _ _ HB') as [c1 [Hc1 HkB]].
-          destruct (@Nseq_shift _ _ _ _ _ _ Hcur (ok_atom a) H1) as [m Hm].
-          eapply Hafter; [eapply (@binv_push_triv cur (SAtom a) c1); [exact Hcur|constructor|exact Hc1]|exact HkB|]. rewrite (push_stmts _ _ _ Hc1). exact Hm.
+        eapply (Hk c1 B); [eapply binv_push_triv; [exact Hcur|exact Hsrc|exact Hc1]|exact HkB|]. rewrite (push_stmts _ _ _ Hc1). exact Hm.
+      + destruct init as [i|].
+        * intros n w r H. destruct (@Nseq_sim_rest _ _ _ _ _ _ (sim_for_init i c post b rest) H) as [n1 H1].
+          eapply (IH2 (S k) i false cur after (SFor None c post b :: rest) B);
+            [eapply init_ok2_supp; eauto| |exact Hcur|exact Hcr|discriminate|exact Hafter|exact HB'|exact H1].
+          unfold supps. cbn [forallb]. rewrite Hs1. exact Hrest.
         * intros n w r H. eapply (Hafter cur B); [left; split; assumption|exact HB'|exact H].
     - (* rw_switch *)
       intros k init tag cases cur kk rest B Hs Hrest Hcur Hcr Hk HB.
@@ -1428,7 +1438,9 @@ Section C.
       apply andb_prop in Hs. destruct Hs as [Hi Hc].
       assert (Hsrc : srcok (SSwitch init tag cases)) by (eapply supp_srcok; exact Hs0).
       rewrite rw_switch_S in HB. destruct (bind_ok _ _ HB) as [[cases' allTrivial] [Hcs HB']]. clear HB.
-      rewrite (init_ok_hasYo _ Hi) in HB'. cbn [negb andb] in HB'.
+      assert (Hsrc0 : srcok (SSwitch None tag cases)).
+      { inversion Hsrc; subst. constructor; auto. intros x Hx; discriminate. }
+      assert (Hs1 : supp (S k) (SSwitch None tag cases) = true) by (rewrite supp_S, Hc; reflexivity).
       (* clause by clause *)
       assert (Hrel : Forall2 crelS cases cases').
       { clear - Hc Hcs Hsub. revert cases' allTrivial Hcs. induction cases as [|[lab b] r IHr]; intros cases' allTrivial Hcs.
@@ -1445,25 +1457,29 @@ Section C.
             rewrite exec_S in Hnb. eapply Hnb; eauto.
           + intros E. pose proof (proj1 (proj2 (ok_exec U V P aden cden tden kval yden env n)) k true true false b w _ Hb4 E) as Hok.
             cbn in Hok. discriminate. }
-      destruct allTrivial.
-      + destruct (bind_ok _ _ HB') as [c1 [Hc1 HkB]]. intros n w r H.
-        destruct (@Nseq_shift _ _ _ _ _ _ Hcur Hsrc H) as [m Hm].
-        eapply Hk; [eapply binv_push_triv; eauto|exact HkB|]. rewrite (push_stmts _ _ _ Hc1). exact Hm.
-      + set (k' := fun c3 => c4 <- push c3 (SSwitch None tag cases') KSwitch ;; kk c4) in HB'.
-        assert (Hk' : Kspec0 k' (SSwitch None tag cases :: rest)).
-        { intros c3 B3 Hc3 _ HB3 n w r H. unfold k' in HB3. destruct (bind_ok _ _ HB3) as [c4 [Hc4 HkB]].
-          assert (Hsrc0 : srcok (SSwitch None tag cases)).
-          { inversion Hsrc; subst. constructor; auto. intros x Hx; discriminate. }
+      set (after := fun c2 : blk =>
+             if allTrivial then c3 <- push c2 (SSwitch None tag cases) KTrivial ;; kk c3
+             else comb c2 (fun c3 => c4 <- push c3 (SSwitch None tag cases') KSwitch ;; kk c4)) in HB'.
+      assert (Hafter : Kspec' after (SSwitch None tag cases :: rest)).
+      { unfold after. destruct allTrivial.
+        - intros c3 B3 Hinv HB3 n w r H. destruct (bind_ok _ _ HB3) as [c4 [Hc4 HkB]].
+          destruct Hinv as [[Hc3 _]|[pre [s0 [_ [_ [_ Hchk]]]]]].
+          + destruct (@Nseq_shift _ _ _ _ _ _ Hc3 Hsrc0 H) as [m Hm].
+            eapply (Hk c4 B3); [eapply binv_push_triv; [exact Hc3|exact Hsrc0|exact Hc4]|exact HkB|]. rewrite (push_stmts _ _ _ Hc4). exact Hm.
+          + exfalso. unfold push in Hc4. rewrite Hchk in Hc4. cbn in Hc4. discriminate.
+        - apply comb_spec. intros c3 B3 Hc3 _ HB3 n w r H. destruct (bind_ok _ _ HB3) as [c4 [Hc4 HkB]].
           destruct (@Nseq_shift_sim _ _ _ _ _ _ _ Hc3 Hsrc0 (@sim_switch tag cases cases' Hrel) H) as [m Hm].
           eapply Hk; [eapply binv_push_nontriv; eauto; discriminate|exact HkB|]. rewrite (push_stmts _ _ _ Hc4). exact Hm. }
-        pose proof (comb_spec Hk') as Hafter.
-        destruct init as [i|].
-        * destruct i; try discriminate.
-          intros n w r H. destruct (@Nseq_sim_rest _ _ _ _ _ _ (sim_switch_init (SAtom a) tag cases rest) H) as [n1 H1].
-          destruct f as [|f']; [discriminate|]. rewrite rw_stmt_S in HB'.
-          destruct (bind_ok _ _ HB') as [c1 [Hc1 HkB]].
-          destruct (@Nseq_shift _ _ _ _ _ _ Hcur (ok_atom a) H1) as [m Hm].
-          eapply Hafter; [eapply (@binv_push_triv cur (SAtom a) c1); [exact Hcur|constructor|exact Hc1]|exact HkB|]. rewrite (push_stmts _ _ _ Hc1). exact Hm.
-        * intros n w r H. eapply (Hafter cur B); [left; split; assumption|exact HB'|exact H].
+      destruct (negb (hasYo init) && allTrivial) eqn:Etriv.
+      + destruct (bind_ok _ _ HB') as [c1 [Hc1 HkB]]. intros n w r H.
+        destruct (@Nseq_shift _ _ _ _ _ _ Hcur Hsrc H) as [m Hm].
+        eapply (Hk c1 B); [eapply binv_push_triv; [exact Hcur|exact Hsrc|exact Hc1]|exact HkB|]. rewrite (push_stmts _ _ _ Hc1). exact Hm.
+      + destruct init as [i|].
+        * intros n w r H. destruct (@Nseq_sim_rest _ _ _ _ _ _ (sim_switch_init i tag cases rest) H) as [n1 H1].
+          eapply (IH2 (S k) i false cur after (SSwitch None tag cases :: rest) B);
+            [eapply init_ok2_supp; eauto| |exact Hcur|exact Hcr|discriminate|exact Hafter|exact HB'|exact H1].
+          unfold supps. cbn [forallb]. rewrite Hs1. exact Hrest.
+        * intros n w r H. cbn [hasYo negb andb] in Etriv. subst allTrivial.
+          eapply (Hafter cur B); [left; split; assumption|exact HB'|exact H].
   Qed.
 End C.
